@@ -5,7 +5,18 @@ set -u
 export GOFLAGS=-mod=mod GOPROXY=off GOSUMDB=off GOTOOLCHAIN=local
 PKG=$1; RX=${2:-'Test(Replay|Fixed)'}
 OV=$(mktemp /tmp/govc-ov.XXXXXX.json)
-echo "{\"Replace\":{\"/repo/$PKG/zz_verif_replay_test.go\":\"/verif/replays/$PKG/zz_verif_replay_test.go\"}}" > $OV
+REPL="\"/repo/$PKG/zz_verif_replay_test.go\":\"/verif/replays/$PKG/zz_verif_replay_test.go\""
+if [ -f /verif/replays/$PKG/zz_verif_race_test.go ]; then REPL="$REPL,\"/repo/$PKG/zz_verif_race_test.go\":\"/verif/replays/$PKG/zz_verif_race_test.go\""; fi
+echo "{\"Replace\":{$REPL}}" > $OV
+if [ "$RX" = race ]; then
+  # race replays: each TestRace* is run alone under the race detector; "reproduced" = a DATA RACE is reported
+  rc=0
+  for t in $(grep -o 'func TestRace[A-Za-z0-9_]*' /verif/replays/$PKG/zz_verif_race_test.go | awk '{print $2}'); do
+    out=$(cd /repo/$PKG && go test -race -overlay $OV -vet=off -count=1 -timeout 180s -run "^$t\$" . 2>&1)
+    if echo "$out" | grep -q "DATA RACE"; then echo "--- RACE-REPRODUCED: $t"; else echo "--- NO-RACE-SEEN: $t"; rc=1; fi
+  done
+  rm -f $OV; exit $rc
+fi
 cd /repo/$PKG && go test -overlay $OV -vet=off -count=1 -timeout 120s -run "$RX" -v . 2>&1 | grep -E "^(=== RUN|--- |PASS|FAIL|ok|panic)" ; rc=${PIPESTATUS[0]}
 rm -f $OV
 exit $rc
